@@ -96,6 +96,10 @@ def _violations_from(res: genrun.GenResult, compile_errs, report) -> list[Violat
     seen = set()
     for rel, err in compile_errs:
         msg = err.split(" (line")[0]
+        if "invalid syntax" in msg or "unterminated" in msg or "was never closed" in msg or "unexpected" in msg:
+            # generic parser message: add the token skeleton of the offending line so that distinct root causes get distinct buckets
+            line = err.split("): ", 1)[1] if "): " in err else ""
+            msg += " @ " + re.sub(r"[A-Za-z_][A-Za-z0-9_]*", "N", line)[:60]
         m = re.search(r"duplicate argument '(\w+)'", msg)
         sig = ("compile", role_of(rel), normalise(msg)) + ((("arg_" + m.group(1)) if m.group(1) in ("self",) else "arg_param",) if m else ())
         if sig not in seen:
